@@ -51,6 +51,10 @@ class ConfigurationDict(UserDict):
 
     def __setitem__(self, key, value):
         key = self.__class__._k(key)
+        if isinstance(value, bytes):
+            # Byte strings are never stored (same as in `RTDCWriter` and
+            # `RTDC_HDF5.parse_config`), because `str(b"a")` is `"b'a'"`.
+            value = value.decode("utf-8")
         # make sure "section: key" exists
         if self.section:
             valid = verify_section_key(self.section, key)
